@@ -1093,6 +1093,7 @@ mzd_t *_mzd_mul_m4rm(mzd_t *C, mzd_t const *A, mzd_t const *B, int k, int clear)
   if (k == 0) {
     /* __M4RI_CPU_L2_CACHE == 2^k * B->width * 8 * 8 */
     k = (int)log2((__M4RI_CPU_L2_CACHE / 64) / (double)B->width);
+    if (k < 0) k = 0; /* B is wider than the L2 cache */
     if ((__M4RI_CPU_L2_CACHE - 64 * __M4RI_TWOPOW(k) * B->width) >
         (64 * __M4RI_TWOPOW(k + 1) * B->width - __M4RI_CPU_L2_CACHE))
       k++;
